@@ -236,7 +236,7 @@ class AsyncRunnerTemplate(BaseRunner, ABC):
             )
 
             if error_handling == "raise":
-                raise error from None
+                raise error from error.__cause__
 
             partial_values = filter_outputs(partial_state, graph, select) if partial_state is not None else {}
             return RunResult(
